@@ -3,7 +3,7 @@
    are arbitrary functions: every theorem holds for all of them. *)
 From Coq Require Import String List NArith Lia.
 From Coq Require Import Init.Byte.
-From Ax Require Import Lib.Bytes Lib.Mvx Lib.Keccak Model.Check Model.Gateway Model.GatewayCheck Proofs.AListFacts Proofs.GatewayMsgs Proofs.GatewayAuth Gen.Generated.
+From Ax Require Import Lib.Bytes Lib.Mvx Lib.Keccak Model.Check Model.Gateway Model.GatewayCheck Proofs.AListFacts Proofs.GatewayMsgs Proofs.GatewayAuth Model.GatewayCheck Model.GWUpgrade Proofs.GWUpgradeFacts Gen.Generated.
 Import ListNotations.
 Open Scope N_scope.
 
@@ -80,6 +80,27 @@ Print Assumptions c01_out_of_window.
 Print Assumptions c01_digest_binding.
 Print Assumptions c01_inv_reachable.
 
+(* histories that also contain UPGRADE transactions (Model/GWUpgrade.v: the owner re-runs the second half of `init`): the invariant
+   behind c01_sound holds in every state reachable through endpoint calls and upgrades in any order; the configuration bound into
+   every proof (domain separator, retention, minimum delay) is what deployment stored, forever; an upgrade approves nothing *)
+Section C01U.
+  Variable H : bytes -> bytes.
+  Variable verify : bytes -> bytes -> bytes -> bool.
+  Theorem c01_inv_reachable_with_upgrades : forall now ret dom md op srs g ev ops,
+    gw_init H now ret dom md op srs = Some (g, ev) -> Inv (ugrun H verify g ops).
+  Proof. intros. apply ugrun_Inv. eapply init_Inv. eassumption. Qed.
+  Theorem c01_settings_forever_with_upgrades : forall g ops,
+    let g' := ugrun H verify g ops in
+    g_retention g' = g_retention g /\ g_domain g' = g_domain g /\ g_min_delay g' = g_min_delay g.
+  Proof. exact (ugrun_keeps_settings H verify). Qed.
+  Theorem c01_upgrade_approves_nothing : forall g c op srs k,
+    mst (fst (ugstep H verify g (inr (GUpgrade c op srs)))) k = mst g k.
+  Proof. exact (upgrade_approves_nothing H verify). Qed.
+End C01U.
+Print Assumptions c01_inv_reachable_with_upgrades.
+Print Assumptions c01_settings_forever_with_upgrades.
+Print Assumptions c01_upgrade_approves_nothing.
+
 (* pins of regenerated constants *)
 Example pin_prefix : gen_gw_signed_prefix = SIGNED_PREFIX := eq_refl.
 Example pin_prefix_text : SIGNED_PREFIX = Byte.x19 :: str "MultiversX Signed Message:" ++ [Byte.x0a] := eq_refl.
@@ -121,3 +142,6 @@ Check c01_sound : forall H verify g m p g' ev, Inv g -> approve_messages H verif
       ws_threshold w <= valid_weight verify D (ws_signers w) (pf_sigs pr) /\
       g' = fst (approve_all H g ms) /\ same_config g g' /\
       (forall k, (forall m0, In m0 ms -> mkey m0 <> k) -> mst g' k = mst g k).
+
+Check c01_inv_reachable_with_upgrades : forall H verify now ret dom md op srs g ev ops,
+    gw_init H now ret dom md op srs = Some (g, ev) -> Inv (ugrun H verify g ops).
